@@ -37,8 +37,11 @@ def set_loop(loop, drift: float = 0.0, offset: float = 0.0) -> None:
 
 
 def jump(seconds: float) -> None:
-    """Step the wall clock relative to loop time (forward only by default use)."""
+    """Step the wall clock relative to loop time.  A negative step (end of DST on a host that runs on local time, an NTP
+    correction) also moves the 'strictly increasing' floor back, so that the clock really reads earlier afterwards."""
     _state["offset"] += seconds
+    if seconds < 0:
+        _state["last_us"] += int(round(seconds * 1e6))
 
 
 def _loop_time() -> float:
